@@ -289,6 +289,9 @@ pub enum Op {
     /// get_or_fetch whose origin returns a fresh value at once; the runtime is driven to quiescence.
     /// Behaves like `Get` on a resident key and like `Ins` (normal hint, admitted) otherwise.
     Fetch { k: u64, w: usize, hold: bool },
+    /// Like `Fetch`, but a second `get_or_fetch` caller joins the fetch while it is in flight and gives up
+    /// (its future is polled once and dropped) before the fetch completes.
+    FetchWaiterGone { k: u64, w: usize, hold: bool },
 }
 
 impl Op {
@@ -312,6 +315,7 @@ impl Op {
             Op::DropH { slot } => format!("drop(h{slot})"),
             Op::CloneH { slot } => format!("clone(h{slot})"),
             Op::Fetch { k, w, hold } => format!("fetch(k{k},w{w}{})", if hold { ",hold" } else { "" }),
+            Op::FetchWaiterGone { k, w, hold } => format!("fetch_waiter_gone(k{k},w{w}{})", if hold { ",hold" } else { "" }),
         }
     }
 
@@ -360,6 +364,11 @@ impl Op {
                 w: num(parts.get(1)?)? as usize,
                 hold: has("hold"),
             },
+            "fetch_waiter_gone" => Op::FetchWaiterGone {
+                k: num(parts.first()?)?,
+                w: num(parts.get(1)?)? as usize,
+                hold: has("hold"),
+            },
             _ => return None,
         })
     }
@@ -400,14 +409,21 @@ pub struct Driver {
     pub n_events: u64,
     /// The current Ins / Get step is performed through `get_or_fetch`.
     via_fetch: bool,
+    waiter_gives_up: bool,
 }
 
 /// `get_or_fetch` with an origin that resolves at once; drives the runtime until the entry is there.
-fn fetch_now(cache: &MC, k: u64, v: u64) -> ME {
+fn fetch_now(cache: &MC, k: u64, v: u64, waiter_gives_up: bool) -> ME {
     use std::future::Future;
     let mut fut = Box::pin(cache.get_or_fetch(&DK(k), move || async move { Ok::<DV, anyhow::Error>(DV(v)) }));
     let waker = tokio::sim::noop_waker();
     let mut cx = std::task::Context::from_waker(&waker);
+    if waiter_gives_up {
+        // joins the in-flight fetch (the fetch task has not run yet), is polled once, then dropped
+        let mut w = Box::pin(cache.get_or_fetch(&DK(k), move || async move { Ok::<DV, anyhow::Error>(DV(v)) }));
+        let _ = w.as_mut().poll(&mut cx);
+        drop(w);
+    }
     for _ in 0..4 {
         if let std::task::Poll::Ready(r) = fut.as_mut().poll(&mut cx) {
             return r.expect("get_or_fetch with an infallible origin failed");
@@ -513,6 +529,7 @@ impl Driver {
             n_hits: 0,
             n_events: 0,
             via_fetch: false,
+            waiter_gives_up: false,
         }
     }
 
@@ -695,9 +712,10 @@ impl Driver {
                 let shard = self.shard_of(k);
                 let props = CacheProperties::default().with_hint(if low { Hint::Low } else { Hint::Normal });
                 let via_fetch = self.via_fetch;
+                let waiter_gives_up = self.waiter_gives_up;
                 let e = guard(if via_fetch { "get_or_fetch" } else { "insert" }, &mut out, || {
                     if via_fetch {
-                        fetch_now(&cache, k, v)
+                        fetch_now(&cache, k, v, waiter_gives_up)
                     } else {
                         cache.insert_with_properties(DK(k), DV(v), props)
                     }
@@ -835,7 +853,7 @@ impl Driver {
                 let via_fetch = self.via_fetch;
                 let got = guard(if via_fetch { "get_or_fetch" } else { "get" }, &mut out, || {
                     if via_fetch {
-                        Some(fetch_now(&cache, k, u64::MAX))
+                        Some(fetch_now(&cache, k, u64::MAX, false))
                     } else {
                         cache.get(&DK(k))
                     }
@@ -1049,6 +1067,13 @@ impl Driver {
                 let evs = self.take_events();
                 let piped = self.take_piped();
                 self.follow_bulk_evictions(&evs, &piped, None, "flush", true, &mut out);
+            }
+            Op::FetchWaiterGone { k, w, hold } => {
+                drop(cache);
+                self.waiter_gives_up = true;
+                let r = self.step(&Op::Fetch { k, w, hold });
+                self.waiter_gives_up = false;
+                return r;
             }
             Op::Fetch { k, w, hold } => {
                 let shard = self.shard_of(k);
